@@ -33,3 +33,9 @@ open Femio.C05K
 #print axioms C05_keys_elemental_collection_roundtrip
 #print axioms C05_keys_counterexample_substring_type
 #print axioms C05_keys_counterexample_ids_in_name
+#print axioms C05_read_opt_default
+#print axioms C05_read_opt_inv
+#print axioms C05_read_opt_safe
+#print axioms C05_history_inv_opt
+#print axioms C05_crash_safe_opt
+#print axioms C05_mesh_only_by_existence_counterexample
